@@ -57,7 +57,7 @@ mod proofs {
   use super::*;
 
   #[kani::proof]
-  #[kani::unwind(10)]
+  #[kani::unwind(8)]
   fn c03_terminal_step() {
     let s: u8 = kani::any();
     kani::assume(s < 5);
@@ -93,51 +93,56 @@ mod proofs {
     std::mem::forget(g);
   }
 
-  /// leftover goals: which pattern nodes may stay unmatched when candidates run out
+  /// leftover goals: which pattern nodes may stay unmatched when candidates run out.
+  /// Variant vectors (<= 2 goals over 6 variants) are enumerated by concrete loops (a
+  /// `Vec<PatternNode>` with symbolic variants exhausts the back end); strictness and the
+  /// `named` bits are symbolic.
+  fn mk_goal(v: u8, named: bool, s: u8) -> (PatternNode, bool) {
+    match v {
+      0 => (PatternNode::MetaVar { meta_var: MetaVariable::Multiple }, s >= 1),
+      1 => (PatternNode::MetaVar { meta_var: MetaVariable::MultiCapture("A".to_string()) }, s >= 1),
+      2 => (PatternNode::MetaVar { meta_var: MetaVariable::Dropped(named) }, s >= 2 && !named),
+      3 => (PatternNode::MetaVar { meta_var: MetaVariable::Capture("B".to_string(), named) }, s >= 2 && !named),
+      4 => (
+        PatternNode::Terminal { text: "x".to_string(), is_named: named, kind_id: 1 },
+        s >= 2 && !named,
+      ),
+      _ => (PatternNode::Internal { kind_id: 3, children: Vec::new() }, false),
+    }
+  }
+
   #[kani::proof]
-  #[kani::unwind(6)]
+  #[kani::unwind(8)]
   fn c03_should_skip_goal() {
     let s: u8 = kani::any();
     kani::assume(s < 5);
     let st = strictness_of(s);
-    let n: usize = kani::any();
-    kani::assume(n <= 3);
-    let mut goals = Vec::with_capacity(3);
-    let mut want_all = true;
-    let mut want_consumed = 0;
-    let mut i = 0;
-    while i < 3 {
-      if i < n {
-        let v: u8 = kani::any();
-        kani::assume(v < 6);
-        let named: bool = kani::any();
-        let (node, skippable) = match v {
-          0 => (PatternNode::MetaVar { meta_var: MetaVariable::Multiple }, s >= 1),
-          1 => (PatternNode::MetaVar { meta_var: MetaVariable::MultiCapture("A".to_string()) }, s >= 1),
-          2 => (PatternNode::MetaVar { meta_var: MetaVariable::Dropped(named) }, s >= 2 && !named),
-          3 => (PatternNode::MetaVar { meta_var: MetaVariable::Capture("B".to_string(), named) }, s >= 2 && !named),
-          4 => (
-            PatternNode::Terminal { text: "x".to_string(), is_named: named, kind_id: 1 },
-            s >= 2 && !named,
-          ),
-          _ => (PatternNode::Internal { kind_id: 3, children: Vec::new() }, false),
-        };
-        goals.push(node);
-        if want_all {
-          if skippable {
-            want_consumed += 1;
-          } else {
-            want_all = false;
-          }
+    let n0: bool = kani::any();
+    let n1: bool = kani::any();
+    let mut v0 = 0;
+    while v0 < 6 {
+      let mut v1 = 0;
+      while v1 < 6 {
+        let (g0, k0) = mk_goal(v0, n0, s);
+        let (g1, k1) = mk_goal(v1, n1, s);
+        let goals = vec![g0, g1];
+        let (all, consumed) = should_skip_goal(&st, &goals);
+        let want_consumed = if !k0 { 0 } else if !k1 { 1 } else { 2 };
+        assert!(all == (k0 && k1) && consumed == want_consumed);
+        // one-goal prefix
+        let (all1, consumed1) = should_skip_goal(&st, &goals[..1]);
+        assert!(all1 == k0 && consumed1 == k0 as usize);
+        if v0 == 4 && v1 == 0 {
+          kani::cover!(all);
+          kani::cover!(!all && consumed == 0);
         }
+        std::mem::forget(goals);
+        v1 += 1;
       }
-      i += 1;
+      v0 += 1;
     }
-    let (all, consumed) = should_skip_goal(&st, &goals);
-    kani::cover!(all && n == 3);
-    kani::cover!(!all && consumed == 2);
-    assert!(all == want_all && consumed == want_consumed);
-    std::mem::forget(goals);
+    let (all0, c0) = should_skip_goal(&st, &[]);
+    assert!(all0 && c0 == 0);
   }
 
   #[kani::proof]
